@@ -27,7 +27,11 @@ def batch_inputs(ctx, env, name, B):
     return lanes, acts, pre, S.stack(lanes), S.stack(acts)
 
 
-def run(R, name, B):
+def run(R, name, B, only=None, flags=(False, True), auto_only=False):
+    """only: list of path substrings - restrict the VmapAutoReset == Vmap(AutoReset) comparison to those leaves (a cheap variant for
+    the quick tier: LevelBasedForaging is the one environment whose episodes can end by TRUNCATION (LAST with discount 1), i.e. the
+    one place where 'reset when LAST' and 'reset when the discount is 0' differ; the full leaf-by-leaf comparison needs 18 min).
+    auto_only: skip the VmapWrapper-vs-per-lane, reset and render parts."""
     from jumanji.wrappers import AutoResetWrapper, VmapAutoResetWrapper, VmapWrapper
     WC.set_mode(name)
     env = configs.make(name)
@@ -56,12 +60,12 @@ def run(R, name, B):
             if d:
                 bad.append({"lane": i, "differs": d})
         return bool(bad), {"config": name, "batch": B, "lanes_differ": bad}
-    for i in range(B):
+    for i in range(B if not auto_only else 0):
         WC.eq_obligations(R, f"VmapWrapper.step lane {i} == env.step: state", A, S.tree_eq_items(S.lane(vs_, i), per[i][0]), replay)
         WC.eq_obligations(R, f"VmapWrapper.step lane {i} == env.step: timestep", A, S.tree_eq_items(S.lane(vt, i), per[i][1]), replay)
 
     # VmapAutoResetWrapper == VmapWrapper(AutoResetWrapper), both flags
-    for flag in (False, True):
+    for flag in flags:
         X_, Y_ = VmapAutoResetWrapper(env, next_obs_in_extras=flag), VmapWrapper(AutoResetWrapper(env, next_obs_in_extras=flag))
         xs, xt = S.call(ctx, X_.step, SB, AB, R=R, name="VmapAutoResetWrapper.step")
         ys, yt = S.call(ctx, Y_.step, SB, AB, R=R, name="VmapWrapper(AutoResetWrapper).step")
@@ -77,6 +81,9 @@ def run(R, name, B):
         # cofactor on every lane's LAST predicate: 2^B termination patterns, each solved separately
         lasts = [S.st_is(per[i][1], 2) for i in range(B)]
         items = S.tree_eq_items(xs, ys) + [("timestep" + p, e) for p, e in S.tree_eq_items(xt, yt)]
+        if only:
+            items = [(p, e) for p, e in items if any(o in p for o in only)]
+            R.bound(compared_leaves=[p for p, _ in items])
         for pat in np.ndindex(*([2] * B)):
             conds = []
             for i, bit in enumerate(pat):
@@ -91,6 +98,9 @@ def run(R, name, B):
             R.reach("some lane ends while another continues", A2, z3.And(lasts[0] if isinstance(lasts[0], z3.ExprRef) else z3.BoolVal(bool(lasts[0])),
                                                                           z3.Not(lasts[1]) if isinstance(lasts[1], z3.ExprRef) else z3.BoolVal(not lasts[1])))
 
+    if auto_only:
+        R.sample({"config": name, "batch": B, "obligations": len(R.obl), "variant": "auto-reset equivalence only"})
+        return
     # reset: lanes and wrapper equivalence
     keys = ctx.fresh_arr("keys", (B, 2), np.uint32)
     vrs, vrt = S.call(ctx, V.reset, keys, R=R, name="VmapWrapper.reset")
@@ -145,4 +155,7 @@ def jobs(tier, seed):
     for n in (["Knapsack", "Maze@3x3"] if tier == "quick" else QUICK_ENVS):
         js.append((f"{n}/B=1", "checks.C14", "run", {"name": n, "B": 1}))
         js.append((f"{n}/B=3", "checks.C14", "run", {"name": n, "B": 3}))
+    if tier == "quick":
+        js.append(("LevelBasedForaging/B=2/truncation", "checks.C14", "run",
+                   {"name": "LevelBasedForaging", "B": 2, "only": ["step_count", "step_type", "discount"], "flags": [False], "auto_only": True}))
     return js
